@@ -110,6 +110,9 @@ func indexedOidTable(c *Ctx, ev *evaluator, paramTypeName string) (*ssa.Global, 
 func idStoredBy(c *Ctx, ev *evaluator, fn *ssa.Function) []string {
 	var out []string
 	add := func(v ssa.Value) {
+		if _, isParam := v.(*ssa.Parameter); isParam {
+			return // a helper that builds an extension around an OID it is given: its callers name the OID
+		}
 		d := c.describe(ev, v, 0)
 		if d.Kind == "ints" {
 			out = append(out, oidString(d.Ints))
@@ -128,6 +131,39 @@ func idStoredBy(c *Ctx, ev *evaluator, fn *ssa.Function) []string {
 				continue
 			}
 			add(st.Val)
+		}
+	}
+	// the Id of the extension value(s) the function returns, wherever the literal is built (helpers inlined)
+	if returnsExtension(fn) {
+		pv := c.provFor("idStoredBy")
+		for _, ret := range returnsOf(fn) {
+			rr := retResults(ret)
+			if len(rr) == 0 {
+				continue
+			}
+			for _, o := range pv.Origins(rr[0]) {
+				if o == "K(nil)" {
+					continue
+				}
+				for _, id := range fieldsOf([]string{o}, "Id") {
+					if strings.HasPrefix(id, "G(") && strings.HasSuffix(id, ")") {
+						if g := c.globalByOrigin(id); g != nil {
+							d := ev.GlobalVal(g.Object())
+							if d.Kind == "ints" {
+								dup := false
+								for _, x := range out {
+									if x == oidString(d.Ints) {
+										dup = true
+									}
+								}
+								if !dup {
+									out = append(out, oidString(d.Ints))
+								}
+							}
+						}
+					}
+				}
+			}
 		}
 	}
 	// functions returning a package-level pkix.Extension value (ocspNoCheck idiom)
@@ -799,8 +835,18 @@ func ruleTabPemType(c *Ctx, r *Rep) {
 	// reader: function calling pem.Decode; equality labels and strings.Contains substrings on the block type
 	var eq, contains []string
 	var reader *ssa.Function
+	var readerFns []*ssa.Function
 	for fn := range c.funcsCalling("encoding/pem.Decode") {
 		reader = fn
+		// the dispatch on the block type may sit in helpers the reader calls
+		readerFns = append(readerFns, fn)
+		for _, ci := range callsIn(fn) {
+			if g := ci.Common().StaticCallee(); g != nil && c.InModule(g) && g.Blocks != nil && g.Pkg == fn.Pkg {
+				readerFns = append(readerFns, g)
+			}
+		}
+	}
+	for _, fn := range readerFns {
 		for _, b := range fn.Blocks {
 			for _, ins := range b.Instrs {
 				switch x := ins.(type) {
@@ -854,6 +900,9 @@ func isPemTypeLoad(v ssa.Value) bool {
 	return ok && fieldOfAddr(fa).Name() == "Type" && typeIs(fa.X.Type().Underlying().(*types.Pointer).Elem(), "encoding/pem", "Block")
 }
 
+// reCutLine: string(Cut(Cut(content, prefix)#1, "\n")#0) for bytes.Cut or strings.Cut
+var reCutLine = regexp.MustCompile(`^(?:conv:string\()?(?:bytes|strings)\.Cut\((?:bytes|strings)\.Cut\((.*)\|(?:conv:\[\]byte\()?K\("([^"]*)"\)\)?\)#1\|(?:K\(10\)|(?:conv:\[\]byte\()?K\("\\n"\)\)?)\)#0\)?$`)
+
 func ruleTabHashLine(c *Ctx, r *Rep) {
 	ev := c.evaluator()
 	// writer: the value written to the artifact buffer is prefix + EncodeToString(HashSum(current configuration)) + "\n";
@@ -906,7 +955,20 @@ func ruleTabHashLine(c *Ctx, r *Rep) {
 		for _, ci := range callsIn(fn) {
 			switch calleeFullName(ci) {
 			case "(*encoding/base64.Encoding).DecodeString":
-				// reader: in a function that also calls bytes.Index with a []byte(const) needle
+				// reader, form 1: the decoded text is cut out of the file with bytes.Cut / strings.Cut: prefix and terminator
+				// are read off the provenance of the argument
+				for _, o := range pvH.Origins(ci.Common().Args[1]) {
+					if m := reCutLine.FindStringSubmatch(o); m != nil && strings.Contains(m[1], "io.ReadAll(") {
+						prefixR = m[2]
+						termR = '\n'
+						encR = c.describe(ev, ci.Common().Args[0], 0).Name
+						rPos = ci.Pos()
+					}
+				}
+				if rPos != token.NoPos {
+					continue
+				}
+				// reader, form 2: in a function that also calls bytes.Index with a []byte(const) needle
 				for _, ci2 := range callsIn(fn) {
 					switch calleeFullName(ci2) {
 					case "bytes.Index":
@@ -1030,4 +1092,103 @@ func stringListElement(c *Ctx, v ssa.Value) []string {
 		out = append(out, s)
 	}
 	return out
+}
+
+// returnsExtension: the function's first result is a pkix.Extension or a pointer to one.
+func returnsExtension(fn *ssa.Function) bool {
+	res := fn.Signature.Results()
+	if res.Len() == 0 {
+		return false
+	}
+	t := res.At(0).Type()
+	if p, ok := t.Underlying().(*types.Pointer); ok {
+		t = p.Elem()
+	}
+	return typeIs(t, "crypto/x509/pkix", "Extension")
+}
+
+var provCache = map[string]*prov{}
+
+// provFor: a provenance engine shared by the callers that use the same (default) settings.
+func (c *Ctx) provFor(who string) *prov {
+	key := who + "|" + c.Mod + sprintf("%p", c)
+	if p, ok := provCache[key]; ok {
+		return p
+	}
+	p := c.newProv()
+	provCache[key] = p
+	return p
+}
+
+// globalByOrigin resolves an origin string G(pkg.Name) to the package-level variable.
+func (c *Ctx) globalByOrigin(o string) *ssa.Global {
+	name := strings.TrimSuffix(strings.TrimPrefix(o, "G("), ")")
+	for _, pkg := range c.Prog.AllPackages() {
+		for _, m := range pkg.Members {
+			if g, ok := m.(*ssa.Global); ok && objName(c, g.Object()) == name {
+				return g
+			}
+		}
+	}
+	return nil
+}
+
+// marshalSite: a call of asn1.Marshal made on behalf of fn - in fn itself or in a module helper it calls - with the
+// marshalled value expressed in fn's frame (a helper's parameter is mapped back to the argument at the call).
+type marshalSite struct {
+	ci  ssa.CallInstruction
+	arg ssa.Value
+}
+
+func marshalSitesOf(c *Ctx, fn *ssa.Function) []marshalSite {
+	var out []marshalSite
+	var collect func(f *ssa.Function, bind map[*ssa.Parameter]ssa.Value, depth int, seen map[*ssa.Function]bool)
+	collect = func(f *ssa.Function, bind map[*ssa.Parameter]ssa.Value, depth int, seen map[*ssa.Function]bool) {
+		if depth > 3 || seen[f] {
+			return
+		}
+		seen[f] = true
+		defer delete(seen, f)
+		mapped := func(v ssa.Value) ssa.Value {
+			v = unwrapIface(v)
+			if prm, ok := v.(*ssa.Parameter); ok {
+				if r, ok := bind[prm]; ok {
+					return r
+				}
+			}
+			return v
+		}
+		for _, ci := range callsIn(f) {
+			if calleeFullName(ci) == "encoding/asn1.Marshal" {
+				out = append(out, marshalSite{ci, mapped(ci.Common().Args[0])})
+				continue
+			}
+			g := ci.Common().StaticCallee()
+			if g == nil || !c.InModule(g) || g.Blocks == nil || g.Pkg != fn.Pkg || ci.Common().IsInvoke() {
+				continue
+			}
+			// only helpers that hand back an extension or its encoded value
+			res := g.Signature.Results()
+			if res.Len() == 0 {
+				continue
+			}
+			if !returnsExtension(g) && !isByteSlice(res.At(0).Type()) {
+				continue
+			}
+			b2 := map[*ssa.Parameter]ssa.Value{}
+			for i, q := range g.Params {
+				if i < len(ci.Common().Args) {
+					b2[q] = mapped(ci.Common().Args[i])
+				}
+			}
+			collect(g, b2, depth+1, seen)
+		}
+	}
+	collect(fn, map[*ssa.Parameter]ssa.Value{}, 0, map[*ssa.Function]bool{})
+	return out
+}
+
+func isByteSlice(t types.Type) bool {
+	sl, ok := t.Underlying().(*types.Slice)
+	return ok && types.Identical(sl.Elem(), types.Typ[types.Byte])
 }
